@@ -244,19 +244,39 @@ def r2_containment(ctx):
     body_ids = set(id(n) for n in g.nodes if any(fr.kind == 'try' and getattr(fr, 'handler', None) is hcover for fr in n.frames))
     warns = [n for n in g.nodes if id(n) in body_ids and any(ast.unparse(c.func) == 'warnings.warn' for c in node_calls(n))]
     # per exception class: does the handler complete normally?
+    def truth_under(e, cls, node, depth=0):
+        """truth value of test expression e when the caught exception is an instance of exactly `cls` ('Other' = none of the library errors); None if undecided"""
+        if isinstance(e, ast.Call) and is_name(e.func, 'isinstance') and len(e.args) == 2 and is_name(e.args[0], exname):
+            names = {x.attr if isinstance(x, ast.Attribute) else x.id for x in ast.walk(e.args[1]) if isinstance(x, (ast.Attribute, ast.Name))}
+            if 'Exception' in names:
+                return True
+            return cls in names
+        if isinstance(e, ast.UnaryOp) and isinstance(e.op, ast.Not):
+            t = truth_under(e.operand, cls, node, depth)
+            return None if t is None else not t
+        if isinstance(e, ast.BoolOp):
+            ts = [truth_under(v, cls, node, depth) for v in e.values]
+            if isinstance(e.op, ast.And):
+                if any(t is False for t in ts):
+                    return False
+                return True if all(t is True for t in ts) else None
+            if any(t is True for t in ts):
+                return True
+            return False if all(t is False for t in ts) else None
+        if isinstance(e, ast.Name) and depth < 3:
+            ds = rd.at(node, e.id)
+            if len(ds) == 1 and ds[0].kind == 'assign' and isinstance(ds[0].value, ast.AST):
+                return truth_under(ds[0].value, cls, ds[0].node, depth + 1)
+        return None
+
     def class_filter(cls):
         def ef(a, b, kind, tok):
             if kind != 'n':
                 return False
-            if b.kind == 'branch' and b.attrs['test'].kind == 'test':
-                e = b.attrs['test'].ast
-                if isinstance(e, ast.Call) and is_name(e.func, 'isinstance') and len(e.args) == 2 and is_name(e.args[0], exname):
-                    names = {x.attr if isinstance(x, ast.Attribute) else x.id for x in ast.walk(e.args[1]) if isinstance(x, (ast.Attribute, ast.Name))}
-                    truth = cls in names or (cls != 'Other' and 'Exception' in names)
-                    if cls == 'Other' and 'Exception' in names:
-                        truth = True
-                    if b.attrs['polarity'] != truth:
-                        return False
+            if b.kind == 'branch' and b.attrs['test'].kind == 'test' and b.attrs['polarity'] in (True, False):
+                truth = truth_under(b.attrs['test'].ast, cls, b.attrs['test'])
+                if truth is not None and b.attrs['polarity'] != truth:
+                    return False
             return True
         return ef
     swallowed = {}
